@@ -31,6 +31,13 @@ BODIES = {
     'struct': ('(si)', lambda t: [[t, 7]], lambda v: v),
     'multi': ('si', lambda t: [t, 9], lambda v: v),
     'int': ('i', lambda t: [hash(t) % 1000], lambda v: v[0]),
+    # one value that is not a struct but contains one: still "one non-struct value gives that value"
+    'array-of-struct': ('a(si)', lambda t: [[[t, 1], [t + 'x', 2]]], lambda v: v[0]),
+    'dict-of-struct': ('a{s(ii)}', lambda t: [[(t, [1, 2])]], lambda v: dict(v[0])),
+    'variant-struct': ('v', lambda t: [Variant('(si)', [t, 3])], lambda v: v[0].value),
+    'struct-first-of-two': ('(si)s', lambda t: [[t, 7], 'z'], lambda v: v),
+    'empty-array': ('as', lambda t: [[]], lambda v: v[0]),
+    'falsy': ('i', lambda t: [0], lambda v: v[0]),
 }
 
 # per-call event scripts; R reply, E error, T deadline, D duplicate reply, L late reply, e duplicate error
